@@ -168,7 +168,11 @@ func c12Decl(rt *rapid.T, pool *gen.Pool) (*refmodel.Decl, *big.Int) {
 			pivot, _ = new(big.Int).SetString(pv, 10)
 			f = &refmodel.Filter{Op: op, Args: []string{pv}}
 		case "uint64":
-			f = &refmodel.Filter{Op: rapid.SampledFrom([]string{"eq", "ne", "gt", "lt"}).Draw(rt, "op"), Args: []string{fmt.Sprint(rapid.IntRange(0, 6).Draw(rt, "arg"))}}
+			arg := fmt.Sprint(rapid.IntRange(0, 12).Draw(rt, "arg"))
+			if rapid.IntRange(0, 3).Draw(rt, "padded") == 0 {
+				arg = fmt.Sprintf("%0*s", rapid.IntRange(2, 5).Draw(rt, "padwidth"), arg) // decimal with leading zeros
+			}
+			f = &refmodel.Filter{Op: rapid.SampledFrom([]string{"eq", "ne", "gt", "lt"}).Draw(rt, "op"), Args: []string{arg}}
 		case "calltype":
 			f = &refmodel.Filter{Op: rapid.SampledFrom([]string{"contains", "!contains", "eq", "ne"}).Draw(rt, "op"), Args: []string{rapid.SampledFrom([]string{"call", "delegatecall", "staticcall"}).Draw(rt, "arg")}}
 		case "addr":
